@@ -28,13 +28,15 @@ CFG = {
     "theorems": ["C05_accounting", "C05_change_balances", "C05_select_and_change", "C05_balance", "C05_failure_keeps_wf",
                  "C05_histories", "C05_history_change", "C05_order", "C05_judge_decides", "C05_recorded_oracle_ok",
                  "C05_mint_min_int_refuted", "C05_collateral_entry", "C05_collateral_is_c19", "C05_histories2",
-                 "C05_history2_balancing", "C05_change_loop_terminates", "C05_recorded_oracle_answers", "C05_change_goes_to_change_address"],
+                 "C05_history2_balancing", "C05_change_loop_terminates", "C05_recorded_oracle_answers", "C05_change_goes_to_change_address", "C05_normaliser_keeps_quantities", "C05_balanced_for_given_amounts"],
     "allowed_axioms": [],
     "compare": "exact",
     "nontrivial": _nontrivial,
     "gen_timeout": 1500,
     "search_budget_s": 10,
-    "rule": "scenarios: UTxO tables of 1-40 UTxOs (amounts over all CBOR width classes and 64-bit edges, 0-30 assets over 1-6 policies, asset "
+    "rule": "scenarios: UTxO tables of 1-40 UTxOs (amounts over all CBOR width classes and 64-bit edges, 0-30 assets over 1-6 policies, degenerate "
+            "amounts in every layout - zero quantity before/after/between positive assets of one policy, zero-only policy, policy => {}, all-zero and "
+            "empty multiasset - for spent, collateral and offered UTxOs, explicit certificate amounts of exactly 0, the same proposal added twice, asset "
             "bundles larger than max_value_size), requested outputs (plain / datum hash / inline datum / script ref, with and without "
             "assets), certificates of all 19 kinds with deposits and refunds, withdrawals, proposals, native-script mint and burn through "
             "MintBuilder (incl. the ends of the Int range), donation, current treasury value, set_fee / set_min_fee, prefer_pure_change and "
